@@ -130,9 +130,10 @@ C12(z) ==
 \* ---- C13 ----------------------------------------------------------------------------------
 RDates == << <<"0","0","0","1","-","0","1","-","0","1">>, <<"9","9","9","9","-","1","2","-","3","1">>, <<"2","0","2","4","-","0","2","-","2","9">>,
              <<"2","0","2","3","-","0","2","-","2","8">>, <<"2","0","2","2","-","0","4","-","3","0">>, <<"1","9","7","0","-","0","1","-","0","1">> >>
-RTimes == << <<"0","0",":","0","0",":","0","0">>, <<"2","3",":","5","9",":","5","9">>, <<"1","2",":","3","4",":","5","6">> >>
+RTimes == << <<"0","0",":","0","0",":","0","0">>, <<"2","3",":","5","9",":","5","9">>, <<"1","2",":","3","4",":","5","6">>,
+            <<"2","3",":","0","0",":","0","0">> >>      \* with -01:00 the instant is exactly the next UTC midnight
 ROffs == << <<"Z">>, <<"+","0","0",":","0","0">>, <<"-","0","0",":","0","0">>, <<"+","0","0",":","0","1">>, <<"-","0","5",":","3","0">>,
-            <<"+","2","3",":","5","9">>, <<"-","2","3",":","5","9">>, <<"-","0","0",":","0","1">>, <<"-","0","0",":","3","0">>, <<"+","1","4",":","0","0">> >>
+            <<"+","2","3",":","5","9">>, <<"-","2","3",":","5","9">>, <<"-","0","0",":","0","1">>, <<"-","0","0",":","3","0">>, <<"+","1","4",":","0","0">>, <<"-","0","1",":","0","0">> >>
 \* digit shapes of a fraction of length n
 Frac(n, shape) == CASE shape = 1 -> Rep("0", n) [] shape = 2 -> Rep("9", n) [] shape = 3 -> <<"1">> \o Rep("0", n - 1)
                     [] shape = 4 -> Rep("0", n - 1) \o <<"1">> [] shape = 5 -> [i \in 1..n |-> DigitChars[((i * 7) % 10) + 1]]
